@@ -10,9 +10,9 @@ def main():
     sys.path.insert(0, snap)
     try:
         from harness import core
-        from harness.props import identity
+        from harness.props import c04, c10, identity
         ctx = core.Ctx("warm", "quick", 0)
-        for fn in (identity.warm,):
+        for fn in (identity.warm, c10.warm, c04.warm):
             fn(ctx)
     finally:
         build.cleanup(snap)
